@@ -4,6 +4,7 @@ package main
 
 import (
 	"fmt"
+	"go/types"
 	"strings"
 
 	"golang.org/x/tools/go/ssa"
@@ -109,6 +110,41 @@ func init() {
 				cause = lastErrArg(s, a[1])
 			}
 			return e.newErr(s, "fmt.Errorf", cause)
+		}),
+		// ---- bytes.Buffer (append-only use) ----
+		"(*bytes.Buffer).Write": simple(func(e *Engine, s *State, a []Value, at ssa.Instruction, f *ssa.Function) Value {
+			p := a[0].(Ptr)
+			st := s.load(p).(St)
+			nb := e.appendB(s, types.NewSlice(types.Typ[types.Byte]), st.F[0], a[1])
+			nf := append([]Value(nil), st.F...)
+			nf[0] = nb
+			s.store(p, St{nf})
+			return Tu{[]Value{Sc{e.lenOf(s, a[1])}, If{}}}
+		}),
+		"(*bytes.Buffer).WriteString": simple(func(e *Engine, s *State, a []Value, at ssa.Instruction, f *ssa.Function) Value {
+			p := a[0].(Ptr)
+			st := s.load(p).(St)
+			nb := e.appendB(s, types.NewSlice(types.Typ[types.Byte]), st.F[0], a[1])
+			nf := append([]Value(nil), st.F...)
+			nf[0] = nb
+			s.store(p, St{nf})
+			return Tu{[]Value{Sc{e.lenOf(s, a[1])}, If{}}}
+		}),
+		"(*bytes.Buffer).WriteByte": simple(func(e *Engine, s *State, a []Value, at ssa.Instruction, f *ssa.Function) Value {
+			p := a[0].(Ptr)
+			st := s.load(p).(St)
+			one := e.newBytes(s, Store(ZeroMem, Idx(0), a[1].(Sc).T), Idx(1), 1)
+			nb := e.appendB(s, types.NewSlice(types.Typ[types.Byte]), st.F[0], one)
+			nf := append([]Value(nil), st.F...)
+			nf[0] = nb
+			s.store(p, St{nf})
+			return If{}
+		}),
+		"(*bytes.Buffer).Bytes": simple(func(e *Engine, s *State, a []Value, at ssa.Instruction, f *ssa.Function) Value {
+			return s.load(a[0].(Ptr)).(St).F[0]
+		}),
+		"(*bytes.Buffer).Len": simple(func(e *Engine, s *State, a []Value, at ssa.Instruction, f *ssa.Function) Value {
+			return Sc{e.lenOf(s, s.load(a[0].(Ptr)).(St).F[0])}
 		}),
 		"github.com/ferranbt/fastssz.ErrBytesLengthFn": simple(func(e *Engine, s *State, a []Value, at ssa.Instruction, _ *ssa.Function) Value {
 			return e.newErr(s, "ssz.ErrBytesLength", nil)
